@@ -6,7 +6,7 @@ From Coq Require Import List NArith ZArith QArith Qcanon Bool Lia Sorted.
 From ACB Require Import Base.Outcome Base.QcExtra Base.Fit Base.Arith Model.Tx Model.Ledger Model.Sfl
      Model.DeltaList Spec.AvgCost Spec.SflRule Spec.Possible Proofs.Tactics Proofs.C01Refine
      Proofs.C04Inv Proofs.C04Sum Proofs.C02Scan Proofs.C05Sites Proofs.C04Reject Proofs.C04Ahead
-     Proofs.C05NoPanic.
+     Proofs.C05NoPanic Proofs.EffCent.
 Import ListNotations.
 Local Open Scope Qc_scope.
 
@@ -324,8 +324,8 @@ Section Sim.
         [apply neg_unwrap_ok in E2 as [-> _] | nrx E2 | exact I].
       destruct (eff_cent exact (g * (min3 n (sc_acq s) (sc_eop s) / n))) as [c| r1 |p1] eqn:E3; cbn [bind];
         [apply eff_cent_exact in E3 | exfalso; eapply eff_cent_norej; exact E3 | exact I].
-      destruct (neg_unwrap Site.eff_cent c) as [calc| r1 |p1] eqn:E4; cbn [bind];
-        [apply neg_unwrap_ok in E4 as [-> _] | nrx E4 | exact I].
+      destruct (lez_unwrap Site.eff_cent c) as [calc| r1 |p1] eqn:E4; cbn [bind];
+        [apply lez_unwrap_ok in E4 as [-> _] | unfold lez_unwrap in E4; destruct (Qcltb 0 c); discriminate E4 | exact I].
       assert (Hcalc : c = effective_cent (g * (Qcmin n (Qcmin (rule_acquired bef t aft)
                                    (rule_held_end (all_shares (abs_map (ps_map st)) - n) t aft)) / n))).
       { rewrite E3, min3_Qcmin, Hacq, Heop. reflexivity. }
@@ -343,8 +343,7 @@ Section Sim.
              destruct (pos_mul exact q n) as [nn| r1 |p1] eqn:E6; cbn [bind]; [| nrx E6 | exact I].
              reflexivity.
           -- reflexivity.
-      + destruct (neg_unwrap Site.sfl_neg c) as [c'| r1 |p1] eqn:E5; cbn [bind];
-          [apply neg_unwrap_ok in E5 as [-> _] | nrx E5 | exact I].
+      + destruct (Qcltb c 0); cbn [negb]; [|reflexivity].
         destruct (gen_sfla exact t c ps) as [txs| r1 |p1] eqn:E6; cbn [bind];
           [| exfalso; eapply gen_sfla_norej; exact E6 | exact I].
         cbn [sf_amount]. f_equal.
@@ -672,8 +671,9 @@ Proof.
   { clear H. intros n g declared H. unfold judge_loss in H. cbv zeta in H.
     destruct declared as [[sv force]|].
     - destruct (_ && _); [discriminate|]. inversion H; constructor.
-    - destruct (_ && _); [|inversion H; constructor]. inversion H; subst.
-      destruct (Qcltb 0 _); [|constructor].
+    - match type of H with (if ?c then _ else _) = _ => destruct c end; [|inversion H; constructor].
+      inversion H; subst.
+      match goal with |- Forall _ (if ?c then _ else _) => destruct c end; [|constructor].
       eapply Forall_impl; [|apply adjustments_shape]. intros a (H1 & H2 & H3 & _). repeat split; assumption. }
   destruct (t_act t).
   - inversion H; constructor.
@@ -1104,17 +1104,16 @@ Section Top.
       + exfalso. inversion H; subst. eapply Hnp. reflexivity.
   Qed.
 
-  (* the only panic of a well-formed history under exact arithmetic is the
-     effective-cent one (C05) *)
-  Lemma no_panic_from_eff_cent init txs ds o :
+  (* a well-formed history does not panic under exact arithmetic (C05; the
+     effective-cent panic is gone since the fix "treat a superficial loss that
+     rounds to zero effective cents as no superficial loss") *)
+  Lemma exact_no_panic init txs ds o :
     run exact init txs = (ds, o) ->
     init_ok2 init -> Forall (row_ok' regof) txs -> Forall vtx txs ->
-    o <> Some (SPanic (PanicConstraint Site.eff_cent)) ->
     forall p, o <> Some (SPanic p).
   Proof.
-    intros H Hi HR HV Hn p Ho. subst o.
-    pose proof (run_panic_only_eff_cent regof regof_default init txs ds p H Hi HR HV) as Hp.
-    apply Hn. rewrite Hp. reflexivity.
+    intros H Hi HR HV p Ho. subst o.
+    exact (run_exact_never_panics regof regof_default init txs ds p H Hi HR HV).
   Qed.
 
   (* the over-sale reported early: the ledger stopped at the loss sale [i],
@@ -1134,7 +1133,6 @@ Section Top.
   Theorem rejection_matches_offence init txs ds o :
     run exact init txs = (ds, o) ->
     init_ok2 init -> Forall (row_ok' regof) txs -> Forall vtx txs -> sd_sorted txs ->
-    o <> Some (SPanic (PanicConstraint Site.eff_cent)) ->
     match first_offence init txs with
     | None => o = None /\ effective ds = possible_rows init txs
     | Some (j, c) =>
@@ -1143,8 +1141,8 @@ Section Top.
            (is_ahead r /\ early_report init txs j c ds))
     end.
   Proof.
-    intros H Hi HR HV Hs Hn.
-    pose proof (no_panic_from_eff_cent _ _ _ _ H Hi HR HV Hn) as Hnp.
+    intros H Hi HR HV Hs.
+    pose proof (exact_no_panic _ _ _ _ H Hi HR HV) as Hnp.
     pose proof (run_agrees _ _ _ _ H Hi HR HV Hs Hnp) as Ha.
     unfold first_offence, possible_rows, early_report, rows_before.
     destruct (walk (spec_init init) [] txs) as [gs off]. cbn [fst snd] in *.
@@ -1164,11 +1162,10 @@ Section Top.
   Theorem rejected_iff_offending init txs ds o :
     run exact init txs = (ds, o) ->
     init_ok2 init -> Forall (row_ok' regof) txs -> Forall vtx txs -> sd_sorted txs ->
-    o <> Some (SPanic (PanicConstraint Site.eff_cent)) ->
     ((exists r, o = Some (SRej r) /\ listed r) <-> (exists j c, first_offence init txs = Some (j, c))).
   Proof.
-    intros H Hi HR HV Hs Hn.
-    pose proof (rejection_matches_offence _ _ _ _ H Hi HR HV Hs Hn) as Hm.
+    intros H Hi HR HV Hs.
+    pose proof (rejection_matches_offence _ _ _ _ H Hi HR HV Hs) as Hm.
     destruct (first_offence init txs) as [[j c]|].
     - destruct Hm as (r & -> & Hl & _). split; intros _; [exists j, c; reflexivity | exists r; auto].
     - destruct Hm as (-> & _). split; [intros (r & Hr & _); discriminate Hr | intros (j & c & E); discriminate E].
@@ -1177,11 +1174,10 @@ Section Top.
   Theorem accepted_iff_possible init txs ds o :
     run exact init txs = (ds, o) ->
     init_ok2 init -> Forall (row_ok' regof) txs -> Forall vtx txs -> sd_sorted txs ->
-    o <> Some (SPanic (PanicConstraint Site.eff_cent)) ->
     (o = None <-> first_offence init txs = None).
   Proof.
-    intros H Hi HR HV Hs Hn.
-    pose proof (rejection_matches_offence _ _ _ _ H Hi HR HV Hs Hn) as Hm.
+    intros H Hi HR HV Hs.
+    pose proof (rejection_matches_offence _ _ _ _ H Hi HR HV Hs) as Hm.
     destruct (first_offence init txs) as [[j c]|].
     - destruct Hm as (r & -> & _). split; intros E; discriminate E.
     - destruct Hm as (-> & _). split; reflexivity.
